@@ -75,35 +75,49 @@ def check_pair(e, op, ta, tb):
     funcs = sorted(f for f in it.functions_run if name in f)[:8]
 
     def replay(model, ob):
-        # realise the model's truth assignment of the base relations with concrete numbers: 1 vs 1 (related) / 1 vs 2 (not)
+        """Realise the model's truth assignment of the scalar relations with concrete numbers and run the real impl.
+        Several encodings of 'related' / 'not related' are tried, chosen so that abs_diff_eq and relative_eq (and a dropped
+        or hard-coded tolerance) give different answers on at least one of them."""
         truth = [bool(z3.is_true(model.eval(t, model_completion=True))) for t in base] if base else []
-        a = [1.0] * na
-        b = [1.0 if (i < len(truth) and truth[i]) or not base else 2.0 for i in range(nb)]
-        if not base:
-            b = [1.0] * nb
-        extra = [0.25] + ([0.0] if op == "releq" else [])
-        req = native_request(op, ta, tb, a, b, extra)
-        path = e.write_replay(ob.name, {"kind": "E2-native-approx", "request": req, "expected": bool(all(truth)) if base else False,
+        if op == "releq":
+            encodings = [((1e6, 1e6 + 1.0), (1e6, 2e6), [0.25, 1e-3]),     # related only through max_relative
+                         ((1.0, 1.125), (1.0, 2.0), [0.25, 0.0]),           # related only through epsilon
+                         ((1.0, 1.0), (1.0, 1.0 + 2.0 ** -40), [0.0, 0.0])]  # exact equality only
+        else:
+            encodings = [((1.0, 1.125), (1.0, 2.0), [0.25]),
+                         ((1e22, 1e22), (1e22, 1e22 + 2097152.0), [1.0]),   # relatively tiny, absolutely large difference
+                         ((1.0, 1.0), (1.0, 1.0 + 2.0 ** -40), [0.0])]
+        req0 = native_request(op, ta, tb, [1.0] * na, [1.0] * nb, encodings[0][2])
+        path = e.write_replay(ob.name, {"kind": "E2-native-approx", "request": req0, "expected": bool(all(truth)) if base else False,
                                         "statement": "%s holds exactly when it holds for every corresponding pair of numbers; unequal lengths => false" % name})
-        if req is None:
+        if req0 is None:
             return False, path, "native oracle has no entry for %s on %s" % (op, ty)
         bad = []
-        # every single-position perturbation as well as the model's assignment
-        trials = [(a, b, all(truth) if base else False)]
-        if base:
-            for i in range(nb):
-                bb = [1.0] * nb
-                bb[i] = 2.0
-                trials.append((a, bb, False))
-            trials.append((a, [1.0] * nb, True))
-        for prof in ("dev", "release"):
-            for (aa, bb, exp) in trials:
-                o = e.native.run([native_request(op, ta, tb, aa, bb, extra)], prof)[0]
-                if isinstance(o, str):
-                    return False, path, "native oracle: %s" % o
-                if bool(o) != bool(exp):
-                    bad.append("%s build: %s(%s: %r vs %r, eps=0.25) = %r, number-by-number conjunction = %r" % (prof, name, ty, aa, bb, bool(o), exp))
+        for (rel, unrel, extra) in encodings:
+            trials = []
+            if base:
+                a = [rel[0]] * na
+                trials.append((a, [rel[1] if truth[i] else unrel[1] for i in range(nb)], all(truth)))
+                for i in range(nb):  # every single-position perturbation
+                    bb = [rel[1]] * nb
+                    bb[i] = unrel[1]
+                    trials.append((a, bb, False))
+                trials.append((a, [rel[1]] * nb, True))
+            else:
+                trials.append(([rel[0]] * na, [rel[1]] * nb, False))
+            for prof in ("dev", "release"):
+                for (aa, bb, exp) in trials:
+                    o = e.native.run([native_request(op, ta, tb, aa, bb, extra)], prof)[0]
+                    if isinstance(o, str):
+                        return False, path, "native oracle: %s" % o
+                    if bool(o) != bool(exp):
+                        bad.append("%s build: %s(%s: %r vs %r, tolerances %r) = %r, number-by-number conjunction = %r" % (
+                            prof, name, ty, aa, bb, extra, bool(o), exp))
+                        break
+                if bad:
                     break
+            if bad:
+                break
         if bad:
             return True, path, "; ".join(bad[:2])
         return False, path, "model does not reproduce natively"
